@@ -2,7 +2,7 @@
  * per-type factories of valid arguments, value snapshots of the other arguments, classification of the returned
  * value, and the fork-per-case driver.
  *
- * usage: null_guard <listfile>        lines "<row id> <variant letter m|z|n|a|s|p> <runtime level> [<global setting>]"
+ * usage: null_guard <listfile>        lines "<row id> <variant letter m|z|n|a|s|p|c|b|e> <runtime level> [<global setting>]"
  *   global setting (the client-controlled globals every guard diagnostic is built from), applied in the child before the call:
  *     default | nameL<n> (program name of n bytes) | nameF<k> (program name containing printf conversions, k-th of NG_FMT_NAMES)
  *             | verL<n> | verF<k> (the same for the program version)
@@ -28,10 +28,11 @@
 #include <sanitizer/allocator_interface.h>
 
 /* ---- factories: a valid, mid-range value of every parameter type ------------------------------------------ */
-static spif_str_t ng_str(void) { return spif_str_new_from_ptr((spif_charptr_t) "alpha beta"); }
-static spif_ustr_t ng_ustr(void) { return spif_ustr_new_from_ptr((spif_charptr_t) "alpha beta"); }
+static int ng_empties;               /* variant "empties": the valid arguments are in their empty / empty-accepting content class */
+static spif_str_t ng_str(void) { return spif_str_new_from_ptr((spif_charptr_t) (ng_empties ? "" : "alpha beta")); }
+static spif_ustr_t ng_ustr(void) { return spif_ustr_new_from_ptr((spif_charptr_t) (ng_empties ? "" : "alpha beta")); }
 static spif_mbuff_t ng_mbuff(void) { return spif_mbuff_new_from_ptr((spif_byteptr_t) "0123456789", 10); }
-static spif_charptr_t ng_chars(void) { return (spif_charptr_t) strdup("alpha beta"); }
+static spif_charptr_t ng_chars(void) { return (spif_charptr_t) strdup(ng_empties ? "" : "alpha beta"); }
 static spif_byteptr_t ng_bytes(void) { spif_byteptr_t p = (spif_byteptr_t) malloc(16); memcpy(p, "0123456789abcdef", 16); return p; }
 static spif_obj_t ng_obj(void) { return SPIF_OBJ(spif_str_new_from_ptr((spif_charptr_t) "beta")); }
 static spif_objpair_t ng_pair(void) {
@@ -42,25 +43,25 @@ static spif_objpair_t ng_pair(void) {
 }
 static spif_tok_t ng_tok(void) { spif_tok_t t = spif_tok_new_from_ptr((spif_charptr_t) "one two three"); if (t) spif_tok_eval(t); return t; }
 static spif_url_t ng_url(void) { return spif_url_new_from_ptr((spif_charptr_t) "http://user:pw@www.example.com:8080/path?query"); }
-static spif_regexp_t ng_regexp(void) { return spif_regexp_new_from_ptr((spif_charptr_t) "al+"); }
+static spif_regexp_t ng_regexp(void) { return spif_regexp_new_from_ptr((spif_charptr_t) (ng_empties ? "a*" : "al+")); }
 static spif_socket_t ng_socket(void) { return spif_socket_new(); }
 static spif_obj_t ng_elem(int k) { static const char *w[] = { "alpha", "beta", "gamma" }; return SPIF_OBJ(spif_str_new_from_ptr((spif_charptr_t) w[k % 3])); }
 static int ng_nullslots;             /* variant "nullslots": lists carry a NULL element, the way insert_at pads */
 static spif_list_t ng_list(int c) {
     spif_list_t l = c == 0 ? SPIF_LIST_NEW(array) : (c == 1 ? SPIF_LIST_NEW(linked_list) : SPIF_LIST_NEW(dlinked_list));
-    int k; for (k = 0; k < 3; k++) SPIF_LIST_APPEND(l, ng_elem(k));
+    int k; for (k = 0; k < (ng_empties ? 0 : 3); k++) SPIF_LIST_APPEND(l, ng_elem(k));
     if (ng_nullslots) SPIF_LIST_INSERT_AT(l, ng_elem(3), 4);          /* index 3 becomes a NULL placeholder */
     return l;
 }
 static spif_vector_t ng_vector(int c) {
     spif_vector_t v = c == 0 ? SPIF_VECTOR_NEW(array) : (c == 1 ? SPIF_VECTOR_NEW(linked_list) : SPIF_VECTOR_NEW(dlinked_list));
-    int k; for (k = 0; k < 3; k++) SPIF_VECTOR_INSERT(v, ng_elem(k));
+    int k; for (k = 0; k < (ng_empties ? 0 : 3); k++) SPIF_VECTOR_INSERT(v, ng_elem(k));
     return v;
 }
 static spif_map_t ng_map(int c) {
     spif_map_t m = c == 0 ? SPIF_MAP_NEW(array) : (c == 1 ? SPIF_MAP_NEW(linked_list) : SPIF_MAP_NEW(dlinked_list));
     int k;
-    for (k = 0; k < 3; k++) { spif_obj_t key = ng_elem(k), val = ng_elem(k + 1); SPIF_MAP_SET(m, key, val); SPIF_OBJ_DEL(key); SPIF_OBJ_DEL(val); }
+    for (k = 0; k < (ng_empties ? 0 : 3); k++) { spif_obj_t key = ng_elem(k), val = ng_elem(k + 1); SPIF_MAP_SET(m, key, val); SPIF_OBJ_DEL(key); SPIF_OBJ_DEL(val); }
     return m;
 }
 static spif_iterator_t ng_iter(int c) { return SPIF_LIST_ITERATOR(ng_list(c)); }
